@@ -90,12 +90,12 @@ type sim struct {
 	// network partition: messages from or to an isolated node are lost at delivery time
 	isolated map[int]bool
 	// durability invariant (shadow restart after a Ready that changed term / vote / log)
-	shadow      bool
-	shadowRuns  int
-	shadowViol  []string
-	lastHS      map[int][2]uint64
-	removed     map[int]bool // nodes that left the cluster through a membership change
-	peers       []string
+	shadow     bool
+	shadowRuns int
+	shadowViol []string
+	lastHS     map[int][2]uint64
+	removed    map[int]bool // nodes that left the cluster through a membership change
+	peers      []string
 }
 
 var simSeq int
@@ -328,6 +328,12 @@ func (s *sim) pump(i int) bool {
 			s.notePending(i, p.ID)
 			n.vn.RN.Propose(p.ToBytes()) // the error is ignored, as in serveChannels
 			got = true
+		case cc := <-n.confC:
+			// serveChannels: err := rc.Node.ProposeConfChange(...); if err != nil { log.Fatal(...) }
+			if err := n.vn.RN.ProposeConfChange(cc); err != nil {
+				s.panics = append(s.panics, fmt.Sprintf("node %d: propose conf change err: %v (log.Fatal: the process exits)", n.id, err))
+			}
+			got = true
 		default:
 			return got
 		}
@@ -412,6 +418,25 @@ func (s *sim) submit(ci int) bool {
 	op := &cop{Client: ci, Args: args, Call: s.step}
 	c.ops = append(c.ops, op)
 	c.conn.Send(model.EncodeCommand(h.B(args...)))
+	s.awaitProposal(ci, op)
+	return true
+}
+
+// submitSent registers the next command of client ci, whose bytes the caller has already written.
+func (s *sim) submitSent(ci int) {
+	c := s.clients[ci]
+	args := c.prog[c.next]
+	c.next++
+	c.pending++
+	s.step++
+	op := &cop{Client: ci, Args: args, Call: s.step}
+	c.ops = append(c.ops, op)
+	s.awaitProposal(ci, op)
+}
+
+func (s *sim) awaitProposal(ci int, op *cop) bool {
+	c := s.clients[ci]
+	args := op.Args
 	n := s.nodes[c.node]
 	op.ID = "?"
 	select {
